@@ -1,5 +1,6 @@
 import Sentinel.Lemmas.HotConc
 import Sentinel.Lemmas.HotConcCap
+import Sentinel.Lemmas.HotConcReload
 /-!
 # C06 — Hot-parameter concurrency is capped per value and its counters conserved
 (property-level theorems; helper lemmas in `Sentinel/Lemmas/HotConc.lean`, model in `Sentinel/Model/HotConc.lean`)
@@ -149,19 +150,14 @@ theorem violates_iff (t : Tc) (L : List Live) (res : String) (a : List Val) (at'
     simp only [hv, if_false, ne_eq, not_false_eq_true, true_and, Bool.not_eq_true', decide_eq_false_iff_not]
     rw [hc]; omega
 
-/-- **C06, admission.** In every reachable state whose controllers have not evicted, an entry is admitted iff no other
-slot blocks it and, for every concurrency rule of the resource that selects a value `v` from it, fewer entries are in
-flight for `v` than the threshold configured for `v` (specific or general) — independently of every other value: the
-right-hand side mentions only `v`'s own ledger.  Full strength: any thresholds (0 and negative specific items
-included), first request of a value included (repaired tree, commit 9ba0999; on the old code `first_touch_witness`). -/
-theorem admit_iff (rules : List Rule) (ops : List Op) (id res : String) (a : List Val) (at' : List (String × Val))
-    (hev : ∀ t ∈ (run (init rules) ops).tcs, t.ev = false) :
-    (entry (run (init rules) ops) id res a at').2 = Res.pass ↔
-      (¬ res ∈ (run (init rules) ops).fb ∧
-       ∀ t ∈ (run (init rules) ops).tcs, t.rule.sel res a at' ≠ Val.nil →
-         (liveOf t.rule (t.rule.sel res a at') (run (init rules) ops).live : Int) < t.rule.thrOf (t.rule.sel res a at')) := by
-  have hinv := (inv_run _ ops (inv_init rules)).1
-  generalize run (init rules) ops = s at *
+/-- admission in any state that satisfies the invariant (reachable with or without reloads) -/
+theorem admit_iff_of_inv (s : St) (hinv0 : Inv s) (id res : String) (a : List Val) (at' : List (String × Val))
+    (hev : ∀ t ∈ s.tcs, t.ev = false) :
+    (entry s id res a at').2 = Res.pass ↔
+      (¬ res ∈ s.fb ∧
+       ∀ t ∈ s.tcs, t.rule.sel res a at' ≠ Val.nil →
+         (liveOf t.rule (t.rule.sel res a at') s.live : Int) < t.rule.thrOf (t.rule.sel res a at')) := by
+  have hinv := hinv0.1
   unfold entry
   by_cases hfb : s.fb.contains res = true
   · have : res ∈ s.fb := by simpa using hfb
@@ -184,6 +180,19 @@ theorem admit_iff (rules : List Rule) (ops : List Op) (id res : String) (a : Lis
       apply hany
       apply List.any_eq_true.mpr
       exact ⟨t, ht, (violates_iff t s.live res a at' (hinv t ht) (hev t ht)).mpr ⟨hv, hc⟩⟩
+
+/-- **C06, admission.** In every reachable state whose controllers have not evicted, an entry is admitted iff no other
+slot blocks it and, for every concurrency rule of the resource that selects a value `v` from it, fewer entries are in
+flight for `v` than the threshold configured for `v` (specific or general) — independently of every other value: the
+right-hand side mentions only `v`'s own ledger.  Full strength: any thresholds (0 and negative specific items
+included), first request of a value included (repaired tree, commit 9ba0999; on the old code `first_touch_witness`). -/
+theorem admit_iff (rules : List Rule) (ops : List Op) (id res : String) (a : List Val) (at' : List (String × Val))
+    (hev : ∀ t ∈ (run (init rules) ops).tcs, t.ev = false) :
+    (entry (run (init rules) ops) id res a at').2 = Res.pass ↔
+      (¬ res ∈ (run (init rules) ops).fb ∧
+       ∀ t ∈ (run (init rules) ops).tcs, t.rule.sel res a at' ≠ Val.nil →
+         (liveOf t.rule (t.rule.sel res a at') (run (init rules) ops).live : Int) < t.rule.thrOf (t.rule.sel res a at')) :=
+  admit_iff_of_inv _ (inv_run _ ops (inv_init rules)) id res a at' hev
 
 /-- the same on the history alone: every rule of the resource has been asked about at most `capacity` distinct values -/
 theorem admit_iff_of_few_values (rules : List Rule) (ops : List Op) (id res : String) (a : List Val) (at' : List (String × Val))
@@ -779,6 +788,284 @@ theorem reload_same (s : St) (hv : ∀ t ∈ s.tcs, t.rule.valid = true) :
     obtain ⟨t, ht, rfl⟩ := List.mem_map.mp hr
     exact hv t ht
   simp [reload, hf, key]
+
+/-! ## histories WITH reloads
+
+The driver's model follows `load` (`ClearRules; LoadRules`), `reload` (`LoadRules` on top of the rules in force) and
+`reloadRes` (`LoadRulesOfResource`).  `reuseBuild_mem` (Lemmas) says exactly what a reload hands to each new rule: an old
+controller kept as it is, the cells of a stat-reusable old controller under the new rule, or a fresh controller.
+What carries the property across a reload, controller by controller (`ReloadSide`):
+* a **kept** controller (its rule stays in force unchanged): its cells keep equalling the live entries admitted under it;
+* a controller whose rule changed but **selects the same argument** (threshold / items changed): it keeps the cells, and
+  they keep equalling the ledger — the new thresholds apply to the entries already in flight;
+* any controller of a resource on which **nothing is alive or parked**: rebuilt or inherited, its cells are all 0 and so is
+  the ledger — a new controller generation starts from 0.
+What is *not* covered, because it is false of the as-is model: a controller that is rebuilt fresh, or that inherits the
+cells of a rule selecting another argument (another `ParamIndex`/`ParamKey`, a MetricType switch never inherits), **while
+entries are alive on its resource**.  Those entries were admitted under the old controller; at exit the code re-extracts
+their argument under the *new* rule and decrements that value's cell of the new controller if such a cell exists by then
+(a no-op otherwise) — so the new cells can fall below the number of entries admitted since (`reload_busy_witness`).
+This is the region in which the trace oracle answers `?`. -/
+
+def ReloadSide (s : St) (tcs' : List Tc) : Prop :=
+  ∀ t' ∈ tcs', t' ∈ s.tcs ∨ Idle s t'.rule.res ∨
+    (∃ t ∈ s.tcs, t' = { t with rule := t'.rule } ∧ SelSame t.rule t'.rule)
+
+theorem tcOk_of_side (s : St) (rs : List Rule) (old : List Tc) (hold : ∀ t ∈ old, t ∈ s.tcs) (t' : Tc)
+    (hm : t' ∈ reuseBuild (fun t : Tc => t.rule) Tc.inherit rs old)
+    (hside : t' ∈ s.tcs ∨ Idle s t'.rule.res ∨ (∃ t ∈ s.tcs, t' = { t with rule := t'.rule } ∧ SelSame t.rule t'.rule)) :
+    TcOk s t' := by
+  rcases hside with hk | hi | ⟨t, ht, heq, hs⟩
+  · exact Or.inl ⟨t', hk, rfl, rfl, selSame_refl _⟩
+  · obtain ⟨r, _, hcase⟩ := reuseBuild_mem rs old t' hm
+    rcases hcase with ⟨hk, _⟩ | ⟨t, ht, hsr, rfl⟩ | rfl
+    · exact Or.inl ⟨t', hold _ hk, rfl, rfl, selSame_refl _⟩
+    · exact Or.inr (Or.inl ⟨t, hold _ ht, rfl, rfl, res_of_statReusable hsr, hi⟩)
+    · refine Or.inr (Or.inr ⟨rfl, ?_, ?_⟩)
+      · intro e he; exact sel_nil_of_res_ne _ _ _ _ (hi.1 e he)
+      · intro p hp; exact sel_nil_of_res_ne _ _ _ _ (hi.2 p hp)
+  · refine Or.inl ⟨t, ht, ?_, ?_, hs⟩
+    · rw [heq]
+    · rw [heq]
+
+/-- **`LoadRules` on top of the rules in force preserves the invariant** (cells = ledger for every controller that has not
+evicted, parked entries keep their cells) under `ReloadSide` -/
+theorem inv_reload_partial (s : St) (rules : List Rule) (h : Inv s) (hside : ReloadSide s (reload s rules).tcs) :
+    Inv (reload s rules) := by
+  apply inv_retcs s _ h
+  intro t' ht'
+  exact tcOk_of_side s _ s.tcs (fun _ ht => ht) t' ht' (hside t' ht')
+
+/-- the same for `LoadRulesOfResource` (the controllers of the other resources are kept as they are) -/
+theorem inv_reloadRes_partial (s : St) (res : String) (rules : List Rule) (h : Inv s)
+    (hside : ReloadSide s (reloadRes s res rules).tcs) : Inv (reloadRes s res rules) := by
+  apply inv_retcs s _ h
+  intro t' ht'
+  have hm : t' ∈ s.tcs.filter (fun t => !(t.rule.res == res)) ++
+      reuseBuild (fun t : Tc => t.rule) Tc.inherit (rules.filter (fun r => r.valid && r.res == res))
+        (s.tcs.filter (fun t => t.rule.res == res)) := ht'
+  rcases List.mem_append.mp hm with hk | hb
+  · exact Or.inl ⟨t', List.mem_of_mem_filter hk, rfl, rfl, selSame_refl _⟩
+  · exact tcOk_of_side s _ _ (fun _ ht => List.mem_of_mem_filter ht) t' hb (hside t' ht')
+
+/-- the same for a clean `load`: every controller is fresh, so nothing may be alive or parked on the loaded resources -/
+theorem inv_load_partial (s : St) (rules : List Rule) (h : Inv s)
+    (hidle : ∀ r ∈ rules.filter Rule.valid, Idle s r.res) : Inv (load s rules) := by
+  apply inv_retcs s _ h
+  intro t' ht'
+  simp only [List.mem_map] at ht'
+  obtain ⟨r, hr, rfl⟩ := ht'
+  refine Or.inr (Or.inr ⟨rfl, ?_, ?_⟩)
+  · intro e he; exact sel_nil_of_res_ne _ _ _ _ ((hidle r hr).1 e he)
+  · intro p hp; exact sel_nil_of_res_ne _ _ _ _ ((hidle r hr).2 p hp)
+
+/-- with nothing alive and nothing parked any reload is fine -/
+theorem reloadSide_quiescent (s : St) (tcs' : List Tc) (hl : s.live = []) (hp : s.pend = []) : ReloadSide s tcs' := by
+  intro t' _
+  exact Or.inr (Or.inl ⟨by simp [hl], by simp [hp]⟩)
+
+/-- the op language of the driver including its three rule-loading ops -/
+inductive OpR where
+  | op (o : Op)
+  | load (rules : List Rule)
+  | reload (rules : List Rule)
+  | reloadRes (res : String) (rules : List Rule)
+
+def stepR (s : St) : OpR → St
+  | .op o => step s o
+  | .load rules => load s rules
+  | .reload rules => reload s rules
+  | .reloadRes res rules => reloadRes s res rules
+
+def runR (s : St) (ops : List OpR) : St := ops.foldl stepR s
+
+/-- every rule-loading step of the history meets the side condition in the state in which it happens -/
+def GoodR : St → List OpR → Prop
+  | _, [] => True
+  | s, o :: os =>
+    (match o with
+     | .op _ => True
+     | .load rules => ∀ r ∈ rules.filter Rule.valid, Idle s r.res
+     | .reload rules => ReloadSide s (reload s rules).tcs
+     | .reloadRes res rules => ReloadSide s (reloadRes s res rules).tcs) ∧ GoodR (stepR s o) os
+
+theorem inv_runR (ops : List OpR) : ∀ s : St, Inv s → GoodR s ops → Inv (runR s ops) := by
+  induction ops with
+  | nil => intro s h _; exact h
+  | cons o os ih =>
+    intro s h hg
+    apply ih (stepR s o) ?_ hg.2
+    cases o with
+    | op o => exact inv_step s o h
+    | load rules => exact inv_load_partial s rules h hg.1
+    | reload rules => exact inv_reload_partial s rules h hg.1
+    | reloadRes res rules => exact inv_reloadRes_partial s res rules h hg.1
+
+/-- **conservation across reloads**: in every history of entries, exits, check/commit interleavings AND rule loads whose
+loads meet `ReloadSide`, every controller in force that has not evicted has, for every value, a cell equal to the number
+of live entries its rule accounts to that value — kept controllers carry their counts across the reload, rebuilt ones
+start a new generation at 0 on an idle resource. -/
+theorem cell_eq_live_reloads (ops : List OpR) (hg : GoodR {} ops) :
+    ∀ t ∈ (runR {} ops).tcs, t.ev = false → ∀ v, v ≠ Val.nil →
+      cellOf t.cache v = (liveOf t.rule v (runR {} ops).live : Int) :=
+  fun t ht hev v hv => (inv_runR ops {} (by exact ⟨by simp, by simp⟩) hg).1 t ht hev v hv
+
+theorem returns_to_zero_reloads (ops : List OpR) (hg : GoodR {} ops) (hall : (runR {} ops).live = []) :
+    ∀ t ∈ (runR {} ops).tcs, t.ev = false → ∀ v, v ≠ Val.nil → cellOf t.cache v = 0 := by
+  intro t ht hev v hv
+  rw [cell_eq_live_reloads ops hg t ht hev v hv, hall]
+  simp [liveOf]
+
+/-- **admission across reloads**: the iff of `admit_iff`, in the state after any such history, against the rules and
+thresholds in force now -/
+theorem admit_iff_reloads (ops : List OpR) (hg : GoodR {} ops) (id res : String) (a : List Val) (at' : List (String × Val))
+    (hev : ∀ t ∈ (runR {} ops).tcs, t.ev = false) :
+    (entry (runR {} ops) id res a at').2 = Res.pass ↔
+      (¬ res ∈ (runR {} ops).fb ∧
+       ∀ t ∈ (runR {} ops).tcs, t.rule.sel res a at' ≠ Val.nil →
+         (liveOf t.rule (t.rule.sel res a at') (runR {} ops).live : Int) < t.rule.thrOf (t.rule.sel res a at')) :=
+  admit_iff_of_inv _ (inv_runR ops {} (by exact ⟨by simp, by simp⟩) hg) id res a at' hev
+
+/-- the uncovered region is really uncovered: threshold 2, `e1` alive for `a`; the rule is reloaded with another capacity
+(not stat-reusable: a fresh controller); `e2` for `a` creates the new cell (1); `e1`'s exit releases on the NEW
+controller: cell 0 with `e2` alive — and two more requests are admitted, three in flight under threshold 2. -/
+theorem reload_busy_witness :
+    let s := runR {} [.load [{ res := "r", thr := 2 }], .op (.entry "e1" "r" [Val.str "a"] []),
+                     .reload [{ res := "r", thr := 2, pmc := 8 }], .op (.entry "e2" "r" [Val.str "a"] []), .op (.exit "e1")]
+    s.tcs.map (fun t => cellOf t.cache (Val.str "a")) = [0] ∧
+    liveOf { res := "r", thr := 2, pmc := 8 } (Val.str "a") s.live = 1 ∧
+    (runR s [.op (.entry "e3" "r" [Val.str "a"] []), .op (.entry "e4" "r" [Val.str "a"] [])]).live.length = 3 := by
+  decide
+
+/-! ### the cap across reloads, per controller generation -/
+
+theorem step_pend_nil (s : St) (op : Op) (hp : s.pend = []) (hs : sequential op = true) : (step s op).pend = [] := by
+  cases op with
+  | check => simp [sequential] at hs
+  | commit => simp [sequential] at hs
+  | flowBlock res => exact hp
+  | exit id =>
+    simp only [step]; unfold exit; split
+    · exact hp
+    · exact hp
+  | entry id res a at' =>
+    simp only [step]; split
+    · exact hp
+    · unfold entry
+      by_cases h1 : s.fb.contains res = true
+      · simp only [h1, if_true]; exact hp
+      · by_cases h2 : (checkTcs res a at' s.tcs).2 = true
+        · simp only [h1, h2, Bool.false_eq_true, if_false, if_true]; exact hp
+        · simp only [h1, h2, Bool.false_eq_true, if_false]; exact hp
+
+theorem parkedOf_of_selSame {a b : Rule} (h : SelSame a b) (v : Val) (pend : List Pend) :
+    parkedOf a v pend = parkedOf b v pend := by
+  unfold parkedOf
+  congr 1
+  funext p
+  rw [sel_of_selSame h]
+
+/-- what a load must respect for the cap to carry over, controller by controller: kept; or nothing alive / parked on its
+resource (a new generation starts at 0); or same selector, same cells, and no threshold lowered (a lowered threshold
+applies to new requests only: the entries in flight may exceed it until enough of them have exited) -/
+def CapSide (s : St) (tcs' : List Tc) : Prop :=
+  ∀ t' ∈ tcs', t' ∈ s.tcs ∨ Idle s t'.rule.res ∨
+    (∃ t ∈ s.tcs, t'.ev = t.ev ∧ SelSame t.rule t'.rule ∧ ∀ v, t.rule.thrOf v ≤ t'.rule.thrOf v)
+
+theorem cappedP_retcs (P : Nat) (hP : 1 ≤ P) (s : St) (tcs' : List Tc) (hc : CappedP P s) (hside : CapSide s tcs') :
+    CappedP P { s with tcs := tcs' } := by
+  intro t' ht' hev v hv
+  show (liveOf t'.rule v s.live : Int) + parkedOf t'.rule v s.pend ≤ max (t'.rule.thrOf v) 0 + P - 1
+  rcases hside t' ht' with hk | hi | ⟨t, ht, he, hs, hthr⟩
+  · exact hc t' hk hev v hv
+  · have h1 := liveOf_idle s t'.rule v hv hi
+    have h2 : parkedOf t'.rule v s.pend = 0 := by
+      unfold parkedOf
+      apply List.countP_eq_zero.mpr
+      intro p hp
+      rw [sel_nil_of_res_ne t'.rule p.res p.args p.atts (hi.2 p hp)]
+      have : (Val.nil == v) = false := by simpa using hv.symm
+      simp [this]
+    rw [h1, h2]
+    have : (0 : Int) ≤ max (t'.rule.thrOf v) 0 := le_max_right _ _
+    push_cast; omega
+  · have h0 := hc t ht (by rw [← he]; exact hev) v hv
+    rw [← liveOf_of_selSame hs, ← parkedOf_of_selSame hs]
+    have := hthr v
+    have hm : max (t.rule.thrOf v) 0 ≤ max (t'.rule.thrOf v) 0 := max_le_max this (le_refl 0)
+    omega
+
+/-- the loads of the history respect `CapSide` -/
+def GoodCapR : St → List OpR → Prop
+  | _, [] => True
+  | s, o :: os =>
+    (match o with
+     | .op _ => True
+     | .load rules => CapSide s (load s rules).tcs
+     | .reload rules => CapSide s (reload s rules).tcs
+     | .reloadRes res rules => CapSide s (reloadRes s res rules).tcs) ∧ GoodCapR (stepR s o) os
+
+def sequentialR : OpR → Bool
+  | .op o => sequential o
+  | _ => true
+
+/-- **the cap across reloads (sequential histories)**: with loads that meet `ReloadSide` (cells stay meaningful) and
+`CapSide` (no threshold lowered under entries in flight), every controller in force that has not evicted never has more
+entries in flight for a value than its threshold — for a kept controller counted across the reload, for a rebuilt one per
+generation (it starts from 0 on an idle resource).  Under schedules the same argument gives `threshold + P − 1`
+(`cappedP_step` and `cappedP_retcs` are the two step lemmas; only the sequential corollary is spelled out). -/
+theorem capped_sequential_reloads (ops : List OpR) (hseq : ∀ o ∈ ops, sequentialR o = true)
+    (hg : GoodR {} ops) (hcap : GoodCapR {} ops) :
+    ∀ t ∈ (runR {} ops).tcs, t.ev = false → ∀ v, v ≠ Val.nil →
+      (liveOf t.rule v (runR {} ops).live : Int) ≤ max (t.rule.thrOf v) 0 := by
+  have key : ∀ (ops : List OpR) (s : St), (∀ o ∈ ops, sequentialR o = true) → GoodR s ops → GoodCapR s ops →
+      Inv s → CappedP 1 s → s.pend = [] → CappedP 1 (runR s ops) := by
+    intro ops
+    induction ops with
+    | nil => intro s _ _ _ _ hc _; exact hc
+    | cons o os ih =>
+      intro s hseq hg hcap hinv hc hp
+      have hs := hseq o (List.mem_cons_self ..)
+      have hrest := fun o' ho' => hseq o' (List.mem_cons_of_mem _ ho')
+      cases o with
+      | op o =>
+        have hso : sequential o = true := hs
+        exact ih (step s o) hrest hg.2 hcap.2 (inv_step s o hinv)
+          (cappedP_step 1 s o [] (within_one_of_sequential [o] s hp (by intro x hx; simp at hx; subst hx; exact hso)) hinv hc)
+          (step_pend_nil s o hp hso)
+      | load rules =>
+        exact ih (load s rules) hrest hg.2 hcap.2 (inv_load_partial s rules hinv hg.1)
+          (cappedP_retcs 1 (le_refl 1) s _ hc hcap.1) hp
+      | reload rules =>
+        exact ih (reload s rules) hrest hg.2 hcap.2 (inv_reload_partial s rules hinv hg.1)
+          (cappedP_retcs 1 (le_refl 1) s _ hc hcap.1) hp
+      | reloadRes res rules =>
+        exact ih (reloadRes s res rules) hrest hg.2 hcap.2 (inv_reloadRes_partial s res rules hinv hg.1)
+          (cappedP_retcs 1 (le_refl 1) s _ hc hcap.1) hp
+  have hfin := key ops {} hseq hg hcap ⟨by simp, by simp⟩ (by intro t ht; simp at ht) rfl
+  intro t ht hev v hv
+  have := hfin t ht hev v hv
+  have hnn : (0 : Int) ≤ parkedOf t.rule v (runR {} ops).pend := Int.natCast_nonneg _
+  omega
+
+/-- reloading exactly the rules in force meets both side conditions whatever is alive -/
+theorem sides_of_same (s : St) (hv : ∀ t ∈ s.tcs, t.rule.valid = true) :
+    ReloadSide s (reload s (s.tcs.map fun t => t.rule)).tcs ∧ CapSide s (reload s (s.tcs.map fun t => t.rule)).tcs := by
+  rw [reload_same s hv]
+  exact ⟨fun t' ht' => Or.inl ht', fun t' ht' => Or.inl ht'⟩
+
+instance (s : St) (ρ : String) : Decidable (Idle s ρ) := by unfold Idle; infer_instance
+instance (a b : Rule) : Decidable (SelSame a b) := by unfold SelSame; infer_instance
+
+/-- non-vacuity: a history with entries alive across three loads — the threshold of the rule in force is raised under a
+live entry (same selector: cells inherited), the same list is loaded again (controllers kept), a second resource on which
+nothing is alive gets its rules through `LoadRulesOfResource` — meets the side condition of the conservation theorems -/
+example : GoodR {} [.load [{ res := "r", thr := 1 }], .op (.entry "e1" "r" [Val.str "a"] []),
+                   .reload [{ res := "r", thr := 2 }], .op (.entry "e2" "r" [Val.str "a"] []),
+                   .reload [{ res := "r", thr := 2 }], .reloadRes "q" [{ res := "q", thr := 1 }],
+                   .op (.exit "e1"), .op (.entry "e3" "q" [Val.str "a"] [])] := by
+  simp only [GoodR, ReloadSide]
+  decide
 
 /-! ## deviations of the code from the statement (faithful model, concrete witnesses) -/
 
